@@ -3,73 +3,113 @@ from ..flow import resolver, peel, root_local, backward, operand_locals
 from ..facts import op_place
 
 
+def _assumption_writes(lib, f, depth=0, memo=None):
+    """[(block, sources)] of f: places where self.assumptions is overwritten — directly, or by a
+    call to a function that overwrites it on every path.  `sources` is the set of parameters of f
+    (local ids) the new value is computed from (empty: from something that is not a parameter)."""
+    from ..flow import _rv_locals
+    memo = memo if memo is not None else {}
+    if f.defn in memo:
+        return memo[f.defn]
+    memo[f.defn] = []
+    R = resolver(f)
+    params = {a["local"] for a in f.args}
+    out = []
+    for c in f.calls:
+        tgt = False
+        srcs = set()
+        for a in c.args:
+            e = R.operand(a)
+            inner = peel(e, calls=None)
+            if e.k == "ref" and inner.k == "proj" and inner.b and inner.b[-1].get("name") == "assumptions" and e.b:
+                tgt = True
+            else:
+                srcs |= params & set(backward(f, operand_locals(a), effects=False))
+        if tgt and c.name in ("clone_into", "clone_from", "extend_from_slice", "replace", "clear", "truncate"):
+            if c.name in ("clone_into", "clone_from", "replace"):
+                out.append((c.bb, srcs - {1}))
+            continue
+        # a callee that overwrites on every path
+        if depth < 3 and "constraint_satisfaction_solver" in f.file:
+            for h in lib.callees(c):
+                if h is f or "constraint_satisfaction_solver" not in h.file or h.name == "solve_internal":
+                    continue
+                hw = _assumption_writes(lib, h, depth + 1, memo)
+                for bb, hs in hw:
+                    if all(h.cfg.dominates(bb, r) for r in h.cfg.returns) and h.cfg.returns:
+                        src = set()
+                        for q in hs:
+                            idx = [i for i, a in enumerate(h.args) if a["local"] == q]
+                            if idx and idx[0] < len(c.args):
+                                src |= params & set(backward(f, operand_locals(c.args[idx[0]]), effects=False))
+                        out.append((c.bb, src - {1}))
+    for b in f.blocks:
+        for st in b["stmts"]:
+            if st["s"] == "assign" and st["dst"]["proj"] and \
+                    [e.get("name") for e in st["dst"]["proj"] if "field" in e] == ["assumptions"]:
+                out.append((b["id"], (params & set(backward(f, _rv_locals(st["rv"]), effects=False))) - {1}))
+    memo[f.defn] = out
+    return out
+
+
 def assumptions_overwritten(led, rid, ctx):
-    """every solve starts from exactly the assumptions it was given (DESIGN §4-C05 A3)"""
+    """every solve starts from exactly the assumptions it was given (DESIGN §4-C05 A3): every entry
+    into the search (a call of solve_internal) is dominated by an overwrite of self.assumptions —
+    in the same function or in a function it calls that overwrites on all of its paths — and where
+    the entering function has an assumptions parameter, the new value is computed from it"""
     lib = ctx.lib
-    # WHO-MAY-CALL: the search is only entered after `initialise` installed this call's assumptions
     n_entries = 0
+    memo = {}
     for g in lib.fns.values():
         if "/tests" in g.file or g.name == "solve_internal":
             continue
         for c in g.calls_named("solve_internal"):
             n_entries += 1
-            inits = g.calls_named("initialise")
-            ok = any(g.cfg.dominates(i.bb, c.bb) for i in inits)
-            led.check(ok, rid, "%s:initialise-before-search" % g.name, c.span, "initialise dominates solve_internal",
+            ws = _assumption_writes(lib, g, 0, memo)
+            dom = [(bb, srcs) for bb, srcs in ws if g.cfg.dominates(bb, c.bb)]
+            if not dom:
+                # a helper that only runs the search: every caller must have overwritten before the call
+                def callers_ok(fn, depth=0):
+                    sites = [(h, c2) for h in lib.fns.values() if h.file == fn.file and h is not fn
+                             for c2 in h.calls if any(x is fn for x in lib.callees(c2))]
+                    if not sites or depth > 2:
+                        return False
+                    for h, c2 in sites:
+                        hw = _assumption_writes(lib, h, 0, memo)
+                        hp = [a["local"] for a in h.args[1:] if "Predicate" in a["ty"]]
+                        d2 = [(bb, srcs) for bb, srcs in hw if h.cfg.dominates(bb, c2.bb) and bb != c2.bb]
+                        if d2 and (not hp or any(set(hp) & srcs for bb, srcs in d2)):
+                            continue
+                        if not d2 and callers_ok(h, depth + 1):
+                            continue
+                        return False
+                    return True
+                if callers_ok(g):
+                    led.ok(rid, "%s:initialise-before-search" % g.name, c.span,
+                           "every caller of this helper overwrites self.assumptions before calling it")
+                    continue
+            led.check(bool(dom), rid, "%s:initialise-before-search" % g.name, c.span,
+                      "an overwrite of self.assumptions dominates solve_internal",
                       "%s enters the search (solve_internal) without a preceding initialise(assumptions): the "
                       "assumptions stored by an earlier call are posted again as if they belonged to the model"
                       % g.name)
+            gparam = [a["local"] for a in g.args[1:] if "Predicate" in a["ty"]]
+            if gparam and dom:
+                ok = any(set(gparam) & srcs for bb, srcs in dom)
+                led.check(ok, rid, "%s:overwritten-from-parameter" % g.name, c.span,
+                          "the stored assumptions are computed from this call's parameter",
+                          "%s overwrites self.assumptions before the search, but not from the assumptions it "
+                          "was given" % g.name)
     led.floor(rid, "entries into solve_internal", n_entries, 1)
-    f = lib.method("ConstraintSatisfactionSolver", "initialise")
-    R = resolver(f)
-    cfg = f.cfg
-    param = None
-    for a in f.args[1:]:
-        if "Predicate" in a["ty"]:
-            param = a["local"]
-    led.check(param is not None, rid, "initialise-takes-assumptions", f.span, "",
-              "initialise no longer receives the assumptions")
-    writers = []
-    for c in f.calls:
-        tgt = False
-        src = False
-        for a in c.args:
-            e = R.operand(a)
-            inner = peel(e, calls=None)
-            if e.k == "ref" and inner.k == "proj" and inner.b and inner.b[-1].get("name") == "assumptions" \
-                    and e.b:
-                tgt = True
-            if param in backward(f, operand_locals(a), effects=False):
-                src = True
-        if tgt and src:
-            writers.append(c.bb)
-    for b in f.blocks:
-        for s in b["stmts"]:
-            if s["s"] == "assign" and s["dst"]["proj"] and \
-                    [e.get("name") for e in s["dst"]["proj"] if "field" in e] == ["assumptions"]:
-                from ..flow import _rv_locals
-                if param in backward(f, _rv_locals(s["rv"]), effects=False):
-                    writers.append(b["id"])
-    ok = any(all(cfg.dominates(w, r) for r in cfg.returns) for w in writers) and bool(cfg.returns)
-    led.check(ok, rid, "initialise-overwrites-assumptions", f.span,
-              "self.assumptions is overwritten from the parameter on every path",
-              "some path through initialise leaves self.assumptions as it was: the assumptions of an "
-              "earlier solve survive into this one")
-    g = lib.method("ConstraintSatisfactionSolver", "solve_under_assumptions")
-    inits = g.calls_named("initialise")
-    solves = g.calls_named("solve_internal")
-    led.check(len(solves) >= 1, rid, "solve_internal-called", g.span, "", "solve_under_assumptions no "
-              "longer calls solve_internal")
-    gparam = None
-    for a in g.args[1:]:
-        if "Predicate" in a["ty"]:
-            gparam = a["local"]
-    for s in solves:
-        ok = any(g.cfg.dominates(i.bb, s.bb) and root_local(g, i.args[1]) == gparam for i in inits)
-        led.check(ok, rid, "initialise-dominates-solve", s.span,
-                  "initialise(assumptions) dominates solve_internal",
-                  "solve_internal can run without initialise(assumptions) having stored this call's "
-                  "assumptions")
+    # a function that is named as the installer must overwrite on every path
+    for f in lib.fns.values():
+        if f.name == "initialise" and "ConstraintSatisfactionSolver" in f.defn:
+            ws = _assumption_writes(lib, f, 0, memo)
+            ok = any(all(f.cfg.dominates(bb, r) for r in f.cfg.returns) and srcs for bb, srcs in ws) and bool(f.cfg.returns)
+            led.check(ok, rid, "initialise-overwrites-assumptions", f.span,
+                      "self.assumptions is overwritten from the parameter on every path",
+                      "some path through initialise leaves self.assumptions as it was: the assumptions of an "
+                      "earlier solve survive into this one")
 
 
 def no_fabricated_reason(led, rid, ctx):
